@@ -393,8 +393,37 @@ def nested_handover():  # noqa: ANN201
                                                  "fam:nested_handover")  # fmt: skip
 
 
+NINF = float("-inf")
+
+
+def ninf_deadlines():  # noqa: ANN201
+    """a deadline of minus infinity (what current_effective_deadline() reports inside a
+    cancelled scope) has passed at any time: constructor, helpers, setter, group scopes"""
+    for cfg in CFGS:
+        for shield in (False, True):
+            for inner in ([["sleep", 1], ["probe"]], [["forever"]], [["cp", 3], ["probe"]]):
+                yield _p(cfg, [["scope", "s1", shield, NINF, inner + [["cp", 1]]], ["probe"], ["cp", 2]],
+                         [], "fam:ninf_deadlines")  # fmt: skip
+                for helper in ("move_on_after", "move_on_at", "fail_after", "fail_at"):
+                    sid = ("f" if helper.startswith("fail") else "m") + "1"
+                    blk = [["tscope", sid, helper, NINF, shield, inner + [["cp", 1]]], ["probe"]]
+                    yield _p(cfg, [["catch_then", blk, [["cp", 1]]], ["cp", 2]], [],
+                             "fam:ninf_deadlines")  # fmt: skip
+
+                for at in (0.5, 1.5):
+                    yield _p(cfg, [["scope", "s1", shield, 3, [["probe"], ["sleep", 1], ["probe"],
+                                                                ["sleep", 1], ["probe"]]], ["cp", 2]],
+                             [{"t": at, "place": "after", "do": ["deadline", "s1", NINF]}],
+                             "fam:ninf_deadlines")  # fmt: skip
+                    child = {"tid": 1, "how": "start_soon", "body": [["sleep", 2], ["probe"]]}
+                    yield _p(cfg, [["catch_then", [["group", 1, [child], [["sleep", 2], ["probe"]]]],
+                                    [["cp", 1]]], ["cp", 2]],
+                             [{"t": at, "place": "after", "do": ["deadline", "g1", NINF]}],
+                             "fam:ninf_deadlines")  # fmt: skip
+
+
 def deadline_histories():  # noqa: ANN201
-    values = (None, -1, 0.25, 1.25, 3)
+    values = (None, -1, 0.25, 1.25, 3, NINF)
     plans = [(0.5, 1.5), (0.5, 2.5), (1.5, 2.5), (0.5, 1.5, 2.5)]
     for cfg in CFGS:
         for d0 in (1, 2, None):
@@ -437,7 +466,7 @@ def start_sweep():  # noqa: ANN201
                                 for rh in (False, True):
                                     body: list = [["cp", k]] if k else []
                                     if first == "started":
-                                        body.append(["started", 5])
+                                        body.append(["started", None if k == 1 else 5])
                                         body += {"more": [["cp", 2]], "raise": [["cp", 1], ["raise", 2]],
                                                  "return": [["return"]], "forever": [["forever"]]}[after]  # fmt: skip
                                     elif first == "raise":
